@@ -16,7 +16,7 @@ from mirparse import parse_dump, Place, Operand, Rvalue, Func, split_top, match_
 
 FLAVOURS = ('digraph', 'sync_digraph', 'ungraph', 'sync_ungraph')
 sys.setrecursionlimit(20000)
-threading.stack_size(256 * 1024 * 1024)
+threading.stack_size(64 * 1024 * 1024)
 
 
 # ------------------------------------------------------------------ values
@@ -998,3 +998,167 @@ def load_index(mirfile, srcroot):
                 vs = [re.match(r'\s*(\w+)', x).group(1) for x in split_top(body) if re.match(r'\s*(\w+)', x)]
                 ix.enums[(fl, m.group(1))] = vs
     return ix
+
+
+# ------------------------------------------------------------------ threads (C17)
+class Abort(BaseException):
+    pass
+
+
+class Sched:
+    """Cooperative scheduler: logical threads are python threads, exactly one runs at a time; a context
+    switch is a free choice (Exec.choose) immediately before every RwLock::read / RwLock::write.
+
+    RwLock model (std's futex lock is writer-preferring):
+      write: granted iff no holder at all;  read: granted iff no writer holds and no writer is queued.
+      A thread that attempts while the lock is not grantable queues (writers register as waiting) and
+      becomes eligible again when its acquisition is grantable.  Same-thread re-acquisition is never granted.
+    """
+
+    def __init__(self, ex, fns, max_steps=400, preemption_bound=None):
+        self.preemption_bound = preemption_bound
+        self.preemptions = 0
+        self.last = None
+        self.ex = ex
+        self.fns = fns
+        self.threads = [Thread(i + 1) for i in range(len(fns))]
+        self.main = threading.Semaphore(0)
+        self.schedule = []
+        self.max_steps = max_steps
+        self.abort = False
+
+    # called from inside a logical thread (through Exec.lock_acquire)
+    def acquire(self, ex, lock, mode):
+        t = ex.cur
+        t.waiting = (lock, mode)
+        t.state = 'at_lock'
+        self.main.release()
+        t.sem.acquire()
+        if self.abort:
+            raise Abort()
+        # granted by the scheduler (lock state already updated)
+        t.waiting = None
+        t.state = 'running'
+
+    def grantable(self, t):
+        lock, mode = t.waiting
+        st = lock.x
+        if mode == 'w':
+            return st['writer'] is None and not st['readers']
+        return st['writer'] is None and not [w for w in st['waiting_w'] if w != t.id]
+
+    def grant(self, t):
+        lock, mode = t.waiting
+        st = lock.x
+        st['waiting_w'].discard(t.id)
+        if mode == 'w':
+            st['writer'] = t.id
+        else:
+            st['readers'].append(t.id)
+
+    def _body(self, t, fn):
+        t.sem.acquire()
+        try:
+            if self.abort:
+                raise Abort()
+            self.ex.cur = t
+            t.state = 'running'
+            t.result = fn()
+            t.state = 'done'
+        except Abort:
+            t.state = 'aborted'
+        except RustPanic as p:
+            t.exc = ('panic', str(p))
+            t.state = 'done'
+            # unwinding: the thread's guards are dropped; a write guard dropped while panicking poisons its lock
+            for (l, mode) in list(t.held):
+                if mode == 'w':
+                    l.x['poisoned'] = True
+                    l.x['writer'] = None
+                elif t.id in l.x['readers']:
+                    l.x['readers'].remove(t.id)
+            t.held = []
+        except Deadlock as d:
+            t.exc = ('deadlock', str(d))
+            t.state = 'done'
+        except Budget as b:
+            t.exc = ('hang', str(b))
+            t.state = 'done'
+        except (Unsupported, Infeasible) as e:
+            t.exc = ('engine', e)
+            t.state = 'done'
+        except BaseException as e:           # engine bug: surface it on the main thread
+            t.exc = ('engine', e)
+            t.state = 'done'
+        finally:
+            self.main.release()
+
+    def run(self):
+        ex = self.ex
+        saved = ex.cur
+        ex.threads = self
+        for t, fn in zip(self.threads, self.fns):
+            t.sem = threading.Semaphore(0)
+            t.result = None
+            t.exc = None
+            t.state = 'new'
+            t.pythread = threading.Thread(target=self._body, args=(t, fn), daemon=True)
+            t.pythread.start()
+        outcome = 'ok'
+        try:
+            steps = 0
+            while True:
+                live = [t for t in self.threads if t.state not in ('done', 'aborted')]
+                if not live:
+                    break
+                cands = []
+                for t in live:
+                    if t.state == 'new':
+                        cands.append((t, 'start'))
+                    elif t.state == 'at_lock':
+                        cands.append((t, 'attempt'))
+                    elif t.state == 'queued' and self.grantable(t):
+                        cands.append((t, 'wake'))
+                if not cands:
+                    outcome = 'deadlock'
+                    break
+                steps += 1
+                if steps > self.max_steps:
+                    raise Budget('schedule does not end')
+                # preemption bounding: switching away from a thread that could go on costs one preemption
+                cont = None
+                if self.last is not None:
+                    for c in cands:
+                        if c[0] is self.last and (c[1] != 'attempt' or self.grantable(c[0])):
+                            cont = c
+                if cont is not None and self.preemption_bound is not None and self.preemptions >= self.preemption_bound:
+                    cands = [cont]
+                j = ex.choose(len(cands), label='schedule') if len(cands) > 1 else 0
+                t, what = cands[j]
+                if cont is not None and t is not self.last:
+                    self.preemptions += 1
+                self.last = t
+                self.schedule.append([t.id, what] + ([t.waiting[1], id(t.waiting[0])] if t.waiting else []))
+                if what == 'attempt' and not self.grantable(t):
+                    t.state = 'queued'
+                    if t.waiting[1] == 'w':
+                        t.waiting[0].x['waiting_w'].add(t.id)
+                    continue
+                if what in ('attempt', 'wake'):
+                    self.grant(t)
+                ex.cur = t
+                t.sem.release()
+                self.main.acquire()
+                for t2 in self.threads:
+                    if t2.exc and t2.exc[0] == 'engine':
+                        raise t2.exc[1]
+        finally:
+            self.abort = True
+            for t in self.threads:
+                if t.state not in ('done', 'aborted'):
+                    t.sem.release()
+            for t in self.threads:
+                t.pythread.join(timeout=5)
+            ex.threads = None
+            ex.cur = saved
+        return outcome
